@@ -61,7 +61,10 @@ let check inp obs =
     let nsched = List.length (List.filter (function Imp (_, DSched _) -> true | _ -> false) pops)
     and nforced = List.length (List.filter (function Imp (_, DForced _) -> true | _ -> false) pops)
     and nfin = List.length (List.filter (function Fin _ -> true | _ -> false) pops) in
-    let base_tags = Printf.sprintf "scenario,crash-points-%s,fin-%d%s%s"
+    let refin = (let st = ref sim0 and hit = ref false in
+                 List.iter (fun o -> (match o with Fin (b, _) when b = !st.s_fin && valid !st o -> hit := true | _ -> ());
+                             st := snd (step set_change_units !st o)) pops; !hit) in
+    let base_tags = (if refin then "refinalise-head," else "") ^ Printf.sprintf "scenario,crash-points-%s,fin-%d%s%s"
         (let n = List.length mver in if n < 10 then "1..9" else if n < 30 then "10..29" else if n < 60 then "30..59" else "60+")
         nfin (if nsched > 0 then ",scheduled-change" else "") (if nforced > 0 then ",forced-change" else "") in
     if String.length obs >= 4 && String.sub obs 0 4 = "err:" then
@@ -75,7 +78,11 @@ let check inp obs =
         (* property predicate on the implementation's own observables *)
         let vers = Array.to_list (Array.map parse_verdict rtoks) in
         let all_parsed = List.for_all (fun v -> v <> None) vers in
-        let prop = all_parsed &&
+        (* every write index of the recorded log has its crash point: one verdict per recorded
+           unit (the "/" and "-" tokens are separators) plus the one before the first unit *)
+        let nunits = List.length (List.filter (fun t -> t <> "/" && t <> "-") stoks) in
+        let complete = (Array.length rtoks = nunits + 1) in
+        let prop = all_parsed && complete &&
                    all_ok_monotone None (List.map (function Some v -> v | None -> VFail N0) vers) in
         let first_bad = (let rec go i = if i >= Array.length rtoks then "" else
                             if parse_verdict rtoks.(i) = None then Printf.sprintf "crash point %d: %s" i rtoks.(i) else go (i + 1) in go 0) in
@@ -98,10 +105,31 @@ let check inp obs =
         { prop_ok = prop; model_eq = eq; nontrivial = List.length mver > 1; finding = "-"; tags = base_tags;
           detail = (if prop && eq then "" else
                     Printf.sprintf "%s%s model-shape=[%s] model-verdicts=[%s]"
-                      (if prop then "" else "restart after a crash violates the property at " ^ (if first_bad = "" then "a non-monotone point" else first_bad) ^ "; ")
+                      (if prop then "" else if not complete then Printf.sprintf "%d crash points reported for %d recorded write units; " (Array.length rtoks) nunits
+                       else "restart after a crash violates the property at " ^ (if first_bad = "" then "a non-monotone point" else first_bad) ^ "; ")
                       (if valid then "" else "model: invalid scenario;") mshape mres) }
       | _ -> { prop_ok = true; model_eq = false; nontrivial = false; finding = "-"; tags = "malformed"; detail = "malformed observation" }
     end
   | _ -> fail "C36: bad input %s" inp
 
-let () = run_driver check
+(* vm_compute cross-check: the model's verdicts recomputed inside Coq and compared with the
+   verdicts of the real restarts (scenarios without the unmodelled change~ rewrite) *)
+let coq_dig = function DNone -> "DNone" | DSched d -> "(DSched " ^ coq_n d ^ ")" | DForced d -> "(DForced " ^ coq_n d ^ ")"
+let coq_sop = function
+  | Imp (p, d) -> Printf.sprintf "Imp %s %s" (coq_n p) (coq_dig d)
+  | Fin (b, r) -> Printf.sprintf "Fin %s %s" (coq_n b) (coq_n r)
+let coq_verdict = function
+  | VOk (b, r, s, g) -> Printf.sprintf "VOk %s %s %s %s" (coq_n b) (coq_n r) (coq_n s) (coq_n g)
+  | VFail st -> "VFail " ^ coq_n st
+let coq inp obs =
+  match split_ws inp, String.split_on_char '#' obs with
+  | "sc" :: ops, [shape; results] ->
+    let has_rewrite = List.exists (fun t -> String.length t >= 8 && String.sub t 0 8 = "change~:") (split_ws shape) in
+    let vers = List.map parse_verdict (split_ws results) in
+    if has_rewrite || List.exists (fun v -> v = None) vers || List.length vers > 120 then None
+    else Some (Printf.sprintf "vm_case [%s] [%s]"
+                 (String.concat "; " (List.map (fun o -> coq_sop (parse_op o)) ops))
+                 (String.concat "; " (List.map (function Some v -> coq_verdict v | None -> "VFail 0%N") vers)))
+  | _ -> None
+
+let () = run_driver ~coq check
